@@ -32,39 +32,39 @@ type CutAssert struct {
 }
 
 type Contract struct {
-	Key      string // normalized function key
-	Kind     string // func | iface
-	Pkg      string // package path providing name resolution context
-	File     string
-	Line     int
-	Props    []string
-	Requires []Clause
-	Decreases *Clause // termination measure of a recursive function (Int expression over the parameters)
-	Ensures  []Clause
-	LoopInv  map[int][]Clause
-	Asserts  []CutAssert
-	Modifies []string // component patterns; nil+!ModSet => default
-	ModSet   bool
-	Pure     bool // no heap effect at all (not even ghost)
-	Trusted  bool // body not verified (external spec or in-repo trusted)
-	InRepo   bool
-	Logged   string // ghost log name (interface methods / functions)
-	NoInline bool
-	Inline   bool
-	Safety   bool // generate safety obligations for this function
-	Frame    bool // generate frame obligations
-	Ghosts   []string
-	Used     bool
-	Panics   []Clause
-	Watch    []Clause
-	SubtypeOf  string         // synthesized: implementation verified against this interface contract
-	ParamAlias map[string]int // interface parameter name -> position
-	logs       []string
-	LogParams  map[string]string // parameter name -> ghost log of the dynamic calls made through it
-	NoMapRange []string          // callee-name substrings that must not be called inside a loop ranging over a map
-	WriteFrame  bool             // every heap store must target memory allocated by this call or context-owned memory
-	FreshResult bool             // (trusted specs) the result is a fresh allocation
-	NoNilChecks bool             // sweep: nil-dereference obligations are not generated
+	Key         string // normalized function key
+	Kind        string // func | iface
+	Pkg         string // package path providing name resolution context
+	File        string
+	Line        int
+	Props       []string
+	Requires    []Clause
+	Decreases   *Clause // termination measure of a recursive function (Int expression over the parameters)
+	Ensures     []Clause
+	LoopInv     map[int][]Clause
+	Asserts     []CutAssert
+	Modifies    []string // component patterns; nil+!ModSet => default
+	ModSet      bool
+	Pure        bool // no heap effect at all (not even ghost)
+	Trusted     bool // body not verified (external spec or in-repo trusted)
+	InRepo      bool
+	Logged      string // ghost log name (interface methods / functions)
+	NoInline    bool
+	Inline      bool
+	Safety      bool // generate safety obligations for this function
+	Frame       bool // generate frame obligations
+	Ghosts      []string
+	Used        bool
+	Panics      []Clause
+	Watch       []Clause
+	SubtypeOf   string         // synthesized: implementation verified against this interface contract
+	ParamAlias  map[string]int // interface parameter name -> position
+	logs        []string
+	LogParams   map[string]string // parameter name -> ghost log of the dynamic calls made through it
+	NoMapRange  []string          // callee-name substrings that must not be called inside a loop ranging over a map
+	WriteFrame  bool              // every heap store must target memory allocated by this call or context-owned memory
+	FreshResult bool              // (trusted specs) the result is a fresh allocation
+	NoNilChecks bool              // sweep: nil-dereference obligations are not generated
 }
 
 type SpecFun struct {
